@@ -369,3 +369,311 @@ func ruleR102(c *Ctx) {
 		c.OK("funcGen#generator-owned-stacks", token.NoPos, "no code reachable from evaluation uses a value stack stored in the generator or optimizer (the optimizer's scratch stack is used at Generate time only)")
 	}
 }
+
+// ---------------------------------------------------------------------------
+// R10.1d closure values built by built-ins keep no mutable state.
+//
+// A function literal that becomes the Func of a funcGen.Function / value.Closure
+// literal *inside code that runs during an evaluation* is a closure value of
+// the language created by a built-in (createLowPass, a memoizer, ...). It may
+// be called any number of times, from parallel map/accept workers and multiUse
+// consumers concurrently, and it may outlive the evaluation inside a constant.
+// A store from its body into a variable captured from the enclosing built-in
+// (assignment, map or slice element store, ++) is state shared by all those
+// calls: results depend on the call history, concurrent calls race, and a Go
+// map written concurrently is a fatal runtime error that no recover catches.
+
+func ruleR101closureValues(c *Ctx) {
+	a := c.genAnchors()
+	if len(a.missing) > 0 {
+		c.Undecided(strings.Join(a.missing, ","), token.NoPos, "anchors not found")
+		return
+	}
+	nLit, nStores := 0, 0
+	for _, pkg := range evalPkgs(c) {
+		info := pkg.TypesInfo
+		for _, f := range pkg.Syntax {
+			ast.Inspect(f, func(x ast.Node) bool {
+				cl, ok := x.(*ast.CompositeLit)
+				if !ok {
+					return true
+				}
+				nm := namedOf(info.TypeOf(cl))
+				if nm == nil || !(nm.Obj() == a.funcType || (nm.Obj().Name() == "Closure" && strings.HasSuffix(nm.Obj().Pkg().Path(), "/value"))) {
+					return true
+				}
+				var lit *ast.FuncLit
+				for _, el := range cl.Elts {
+					if kv, ok := el.(*ast.KeyValueExpr); ok {
+						if k, ok := kv.Key.(*ast.Ident); ok && k.Name == "Func" {
+							lit, _ = ast.Unparen(kv.Value).(*ast.FuncLit)
+						}
+					}
+				}
+				if lit == nil {
+					return true
+				}
+				// created during an evaluation: some enclosing function has a value stack parameter
+				var host ast.Node
+				for q := c.EnclosingFunc(cl); q != nil; q = c.EnclosingFunc(q) {
+					var ft *ast.FuncType
+					switch t := q.(type) {
+					case *ast.FuncLit:
+						ft = t.Type
+					case *ast.FuncDecl:
+						ft = t.Type
+					}
+					if ft != nil && ft.Params != nil {
+						for _, p := range ft.Params.List {
+							if a.isStack(info.TypeOf(p.Type)) {
+								host = q
+							}
+						}
+					}
+					if host != nil {
+						break
+					}
+				}
+				if host == nil {
+					return true // built at set-up time (a static function of the generator): one instance per generator, R10.1c
+				}
+				nLit++
+				fname := c.FuncName(lit) + litSuffix(c, lit)
+				k := 0
+				inspectNoLit(lit.Body, func(y ast.Node) bool {
+					var targets []ast.Expr
+					switch t := y.(type) {
+					case *ast.AssignStmt:
+						for _, l := range t.Lhs {
+							if id, ok := l.(*ast.Ident); ok && t.Tok == token.DEFINE && info.Defs[id] != nil {
+								continue
+							}
+							targets = append(targets, l)
+						}
+					case *ast.IncDecStmt:
+						targets = append(targets, t.X)
+					}
+					for _, l := range targets {
+						root := rootIdent(ast.Unparen(l))
+						if root == nil || root.Name == "_" {
+							continue
+						}
+						obj, ok := info.ObjectOf(root).(*types.Var)
+						if !ok || obj.IsField() {
+							continue
+						}
+						if obj.Pos() >= lit.Pos() && obj.Pos() <= lit.End() {
+							continue // a variable of the closure body itself
+						}
+						if obj.Pkg() != nil && obj.Parent() == obj.Pkg().Scope() {
+							continue // package level: R10.1c
+						}
+						nStores++
+						k++
+						key := fmt.Sprintf("%s#closure-value-state[%d]:%s", fname, k, nodeStr(c.Fset, l))
+						c.Violation(key, l.Pos(), "the closure value built by this built-in stores into %s, a variable captured from the enclosing built-in: the state is shared by all calls of the closure - its results depend on the call history, calls from parallel map/accept workers or multiUse consumers race, and a Go map written concurrently is a fatal runtime error that no recover catches", nodeStr(c.Fset, l))
+					}
+					return true
+				})
+				return true
+			})
+		}
+	}
+	c.OK("value#closure-values-built-during-evaluation", token.NoPos, "%d closure values are built by built-ins during an evaluation; %d stores into captured variables", nLit, nStores)
+}
+
+// ---------------------------------------------------------------------------
+// R10.2b a stack never adopts a slice it does not own.
+//
+// NewStack(v...) keeps the slice it is given as the storage of the stack;
+// pushes append to it. If the slice is forwarded from somewhere else
+// (NewStack(args...) with args a parameter), the storage of the evaluation is
+// the caller's memory: a push writes into the caller's slice behind its
+// length whenever it has spare capacity (a row table[3*i:3*i+3] of a larger
+// table), and two evaluations that are given the same slice share their
+// let-slots. The forwarded slice has to be one that the calling function
+// allocated itself (make, a literal, the result of a helper of the package
+// that returns a slice it allocated).
+
+func ruleR102b(c *Ctx) {
+	a := c.genAnchors()
+	if len(a.missing) > 0 {
+		c.Undecided(strings.Join(a.missing, ","), token.NoPos, "anchors not found")
+		return
+	}
+	newStack := LookupFunc(a.fg, "NewStack")
+	if newStack == nil {
+		c.Undecided("funcGen.NewStack", token.NoPos, "not found")
+		return
+	}
+	// does NewStack keep its argument? (storage: ...{data: v})
+	keeps := false
+	if fd := c.FuncDecl(a.fg, "", "NewStack"); fd != nil && fd.Type.Params != nil && len(fd.Type.Params.List) == 1 && len(fd.Type.Params.List[0].Names) == 1 {
+		pobj := a.fg.TypesInfo.Defs[fd.Type.Params.List[0].Names[0]]
+		ast.Inspect(fd.Body, func(x ast.Node) bool {
+			if kv, ok := x.(*ast.KeyValueExpr); ok {
+				if id, ok := ast.Unparen(kv.Value).(*ast.Ident); ok && a.fg.TypesInfo.ObjectOf(id) == pobj {
+					keeps = true
+				}
+			}
+			return true
+		})
+	}
+	if !keeps {
+		c.OK("funcGen.NewStack#adopts-argument", token.NoPos, "NewStack does not keep the slice it is given")
+		return
+	}
+	var freshResult func(pkg *packages.Package, fn *types.Func, depth int) bool
+	freshLocal := func(pkg *packages.Package, root ast.Node, obj types.Object, depth int) bool {
+		info := pkg.TypesInfo
+		fresh, any := true, false
+		ast.Inspect(root, func(x ast.Node) bool {
+			var lhs, rhs []ast.Expr
+			switch t := x.(type) {
+			case *ast.AssignStmt:
+				lhs, rhs = t.Lhs, t.Rhs
+			case *ast.ValueSpec:
+				for _, nm := range t.Names {
+					lhs = append(lhs, nm)
+				}
+				rhs = t.Values
+				if len(rhs) == 0 {
+					for _, nm := range t.Names {
+						if info.Defs[nm] == obj {
+							any = true // var x []V
+						}
+					}
+				}
+			}
+			for i, l := range lhs {
+				id, ok := l.(*ast.Ident)
+				if !ok || info.ObjectOf(id) != obj {
+					continue
+				}
+				var r ast.Expr
+				if len(rhs) == len(lhs) {
+					r = rhs[i]
+				} else if len(rhs) == 1 {
+					r = rhs[0]
+				}
+				if r == nil {
+					continue
+				}
+				any = true
+				switch t := ast.Unparen(r).(type) {
+				case *ast.CompositeLit:
+				case *ast.CallExpr:
+					if fid, ok := ast.Unparen(t.Fun).(*ast.Ident); ok {
+						if _, isB := info.Uses[fid].(*types.Builtin); isB {
+							if fid.Name == "make" {
+								continue
+							}
+							if fid.Name == "append" && len(t.Args) > 0 {
+								if aid, ok := ast.Unparen(t.Args[0]).(*ast.Ident); ok && info.ObjectOf(aid) == obj {
+									continue
+								}
+							}
+						}
+					}
+					if cal := Callee(info, t); cal != nil && cal.Pkg() == pkg.Types && depth < 2 && freshResult(pkg, cal, depth+1) {
+						continue
+					}
+					fresh = false
+				default:
+					fresh = false
+				}
+			}
+			return true
+		})
+		return fresh && any
+	}
+	freshResult = func(pkg *packages.Package, fn *types.Func, depth int) bool {
+		fd := findFuncDecl(pkg, fn)
+		if fd == nil || fd.Body == nil {
+			return false
+		}
+		ok, n := true, 0
+		inspectNoLit(fd.Body, func(x ast.Node) bool {
+			r, isRet := x.(*ast.ReturnStmt)
+			if !isRet || len(r.Results) == 0 {
+				return true
+			}
+			e := ast.Unparen(r.Results[0])
+			if id, isID := e.(*ast.Ident); isID {
+				if id.Name == "nil" {
+					return true
+				}
+				n++
+				if !freshLocal(pkg, fd, pkg.TypesInfo.ObjectOf(id), depth) {
+					ok = false
+				}
+				return true
+			}
+			n++
+			ok = false
+			return true
+		})
+		return ok && n > 0
+	}
+	n := 0
+	for _, pkg := range c.RepoPkgs {
+		if strings.Contains(pkg.PkgPath, "/example") || strings.HasSuffix(pkg.PkgPath, "/gen") {
+			continue
+		}
+		info := pkg.TypesInfo
+		forEachFuncBody([]*packages.Package{pkg}, func(pkg *packages.Package, fn ast.Node, body *ast.BlockStmt) {
+			k := 0
+			inspectNoLit(body, func(x ast.Node) bool {
+				call, ok := x.(*ast.CallExpr)
+				if !ok || !isCallTo(info, call, newStack) || !call.Ellipsis.IsValid() || len(call.Args) != 1 {
+					return true
+				}
+				n++
+				k++
+				key := fmt.Sprintf("%s#NewStack-adopts[%d]:%s", c.FuncName(fn)+litSuffix(c, fn), k, nodeStr(c.Fset, call.Args[0]))
+				id, ok := ast.Unparen(call.Args[0]).(*ast.Ident)
+				if !ok {
+					c.Undecided(key, call.Pos(), "the slice handed to NewStack is not a variable")
+					return true
+				}
+				obj := info.ObjectOf(id)
+				// a parameter of an enclosing function?
+				isParam := false
+				for q := fn; q != nil; q = c.EnclosingFunc(q) {
+					var ft *ast.FuncType
+					switch t := q.(type) {
+					case *ast.FuncDecl:
+						ft = t.Type
+					case *ast.FuncLit:
+						ft = t.Type
+					}
+					if ft != nil && ft.Params != nil {
+						for _, p := range ft.Params.List {
+							for _, nm := range p.Names {
+								if info.Defs[nm] == obj {
+									isParam = true
+								}
+							}
+						}
+					}
+				}
+				var root ast.Node = fn
+				if d := c.EnclosingDecl(call); d != nil {
+					root = d
+				}
+				switch {
+				case isParam:
+					c.Violation(key, call.Pos(), "NewStack(%s...) makes the slice %s, a parameter, the storage of the stack: every push (let, call arguments) appends to the caller's slice and writes into its memory behind the passed arguments whenever the slice has spare capacity; evaluations that are given the same slice share their slots", id.Name, id.Name)
+				case freshLocal(pkg, root, obj, 0):
+					c.OK(key, call.Pos(), "the stack adopts a slice that this function allocated itself")
+				default:
+					c.Undecided(key, call.Pos(), "origin of the slice %s handed to NewStack not understood", id.Name)
+				}
+				return true
+			})
+		})
+	}
+	if n == 0 {
+		c.Note("funcGen.NewStack#adopting-calls", token.NoPos, "no call NewStack(x...) found")
+	}
+}
